@@ -1,8 +1,171 @@
 import Got.Drv.Common
-/- driver for the delayed model family (properties C10): to be written -/
+import Got.Model.Delayed
+/-
+drv_delayed (monitor mode): input line = `<script>\t<impl observation>`; answer `ok`, `ok tie-order` or `reject <model line>`.
+
+script:  c10 end <t> Q <cap0>:<start0> <cap1>:<start1> ... | <q> <d> <t> ; <q> <d> <t> ; ...
+  one sequential sender issues Queue(q).SendDelayed(d ns) at virtual instant t (ns, relative to the scenario start,
+  which is a tick instant of the global delayed queue); queue i has capacity cap_i and a consumer that starts
+  receiving at instant start_i (before that the queue fills up).  Observation = per queue the arrival sequence
+  `idx@t` seen by the consumer, up to instant `end`.
+
+The driver explores the timed executions of Got.Model.Delayed (every transition through `Delayed.step`,
+maximal progress).  The model is nondeterministic only where the loop's select has both a pending tick and a
+pending request; both branches are explored and the observation must equal one of the outcomes.
+-/
 namespace Got.Drv.Delayed
+open Got.Model.Delayed Got.Drv
+
+structure RSpec where
+  idx : Nat
+  q : Nat
+  d : Int
+  at_ : Nat
+  deriving Inhabited
+
+structure Scn where
+  endT : Nat
+  caps : Array Nat
+  cstart : Array Nat
+  reqs : Array RSpec
+
+structure Sim where
+  s : State
+  err : Bool := false
+  cursor : Nat := 0
+  arr : Array (Array (Nat × Nat))    -- per queue: (request id, arrival instant)
+
+def doStep (sim : Sim) (a : Act) : Sim :=
+  match step sim.s a with
+  | some s' => { sim with s := s' }
+  | none => { sim with err := true }
+
+/-- a queue whose consumer is active and which holds a task -/
+def readyQueue (sc : Scn) (sim : Sim) : Option Nat :=
+  (List.range sc.caps.size).find? (fun i => decide (sc.cstart[i]! ≤ sim.s.now) && !(sim.s.q i).isEmpty)
+
+/-- run all transitions enabled at the current instant; fork where the loop's select has two ready cases -/
+partial def settle (sc : Scn) (sim : Sim) : List Sim :=
+  if sim.err then [sim] else
+  let s := sim.s
+  if s.now = s.nextTick then settle sc (doStep sim .tickFire)
+  else if s.senders.isEmpty && decide (sim.cursor < sc.reqs.size) && decide (sc.reqs[sim.cursor]!.at_ ≤ s.now) then
+    let r := sc.reqs[sim.cursor]!
+    settle sc { doStep sim (.sendDelayed r.q r.d) with cursor := sim.cursor + 1 }
+  else if enqEnabled s then settle sc (doStep sim (.enq 0))
+  else match readyQueue sc sim with
+    | some i =>
+      let r := (s.q i).head!
+      let sim := { sim with arr := sim.arr.modify i (·.push (r.id, s.now)) }
+      settle sc (doStep sim (.qRecv i))
+    | none =>
+      match s.lpc with
+      | .select =>
+        if s.tickPending && !s.reqChan.isEmpty then settle sc (doStep sim .tickRecv) ++ settle sc (doStep sim .pushReq)
+        else if s.tickPending then settle sc (doStep sim .tickRecv)
+        else if !s.reqChan.isEmpty then settle sc (doStep sim .pushReq)
+        else [sim]
+      | .tickLoop _ => settle sc (doStep sim .tickTest)
+      | .forwarding _ _ => if loopEnabled s then settle sc (doStep sim .forward) else [sim]
+
+def minOpt (a b : Option Nat) : Option Nat :=
+  match a, b with
+  | none, b => b
+  | a, none => a
+  | some x, some y => some (min x y)
+
+/-- next instant at which something is scheduled -/
+def nextInstant (sc : Scn) (sim : Sim) : Option Nat :=
+  let s := sim.s
+  let tSend := if s.senders.isEmpty && sim.cursor < sc.reqs.size then some sc.reqs[sim.cursor]!.at_ else none
+  let tCons := sc.cstart.foldl (fun acc t => if t > s.now then minOpt acc (some t) else acc) none
+  minOpt (some s.nextTick) (minOpt tSend tCons)
+
+def render (sc : Scn) (sim : Sim) : String :=
+  let parts := (List.range sc.caps.size).map (fun i =>
+    joinSp ([s!"Q{i}"] ++ (sim.arr[i]!.toList.map (fun (x : Nat × Nat) => s!"{x.1}@{x.2}"))))
+  " | ".intercalate (parts ++ [if sim.err then "E model-step-disabled" else "E ok"])
+
+partial def explore (sc : Scn) (work : List Sim) (acc : List String) (budget : Nat) : List String × Bool :=
+  match work with
+  | [] => (acc, true)
+  | sim :: rest =>
+    if budget = 0 then (acc, false) else
+    match nextInstant sc sim with
+    | some t =>
+      if t > sc.endT || sim.err then
+        let o := render sc sim
+        explore sc rest (if acc.contains o then acc else acc ++ [o]) (budget - 1)
+      else
+        let sim := doStep sim (.delay (t - sim.s.now))
+        explore sc (settle sc sim ++ rest) acc (budget - 1)
+    | none =>
+      let o := render sc sim
+      explore sc rest (if acc.contains o then acc else acc ++ [o]) (budget - 1)
+
+def parseScript (line : String) : Option Scn :=
+  match line.splitOn " | " with
+  | [head, body] =>
+    match words head with
+    | "c10" :: "end" :: e :: "Q" :: qs =>
+      let qp := qs.filterMap (fun w => match w.splitOn ":" with
+        | [c, s] => match c.toNat?, s.toNat? with
+          | some c, some s => some (c, s)
+          | _, _ => none
+        | _ => none)
+      let ops := ((body.splitOn " ; ").map words).filter (· ≠ [])
+      let reqs := ops.filterMap (fun w => match w with
+        | [q, d, t] => match q.toNat?, d.toInt?, t.toNat? with
+          | some q, some d, some t => some (q, d, t)
+          | _, _, _ => none
+        | _ => none)
+      if reqs.length ≠ ops.length || qp.length ≠ qs.length then none else
+      match e.toNat? with
+      | some e =>
+        let reqs := reqs.zipIdx.map (fun (x : (Nat × Int × Nat) × Nat) => ({ idx := x.2, q := x.1.1, d := x.1.2.1, at_ := x.1.2.2 } : RSpec))
+        some { endT := e, caps := (qp.map (·.1)).toArray, cstart := (qp.map (·.2)).toArray, reqs := reqs.toArray }
+      | none => none
+    | _ => none
+  | _ => none
+
+/-- canonical form modulo the order among arrivals with the same instant and the same deadline on one queue:
+    every arrival is replaced by (deadline, instant) -/
+def canonTie (sc : Scn) (obs : String) : String :=
+  let secs := obs.splitOn " | "
+  " | ".intercalate (secs.map (fun sec =>
+    joinSp ((words sec).map (fun w =>
+      match w.splitOn "@" with
+      | [i, t] =>
+        match i.toNat? with
+        | some i =>
+          match sc.reqs[i]? with
+          | some r => s!"q{r.q}d{(r.at_ : Int) + r.d}@{t}"   -- deadline if issued on time
+          | none => w
+        | none => w
+      | _ => w))))
+
+def simulate (sc : Scn) : List String × Bool :=
+  let caps := sc.caps
+  let sim : Sim := { s := init (fun i => caps[i]?.getD 0), arr := Array.replicate caps.size #[] }
+  explore sc (settle sc sim) [] 200000
+
+def stepLine (_ : Unit) (line : String) : Unit × String :=
+  if line.isEmpty then ((), "") else
+  let (script, impl) := match line.splitOn "\t" with
+    | [s, i] => (s, i)
+    | [s] => (s, "")
+    | _ => (line, "")
+  match parseScript script with
+  | none => ((), "reject bad-script")
+  | some sc =>
+    let (outs, complete) := simulate sc
+    if impl.isEmpty then ((), " || ".intercalate outs)
+    else if outs.contains impl then ((), "ok")
+    else if (outs.map (canonTie sc)).contains (canonTie sc impl) then ((), "ok tie-order")
+    else if !complete then ((), "reject exploration-budget-exhausted " ++ outs.headD "")
+    else ((), "reject " ++ outs.headD "<no outcome>")
 
 def main (_args : List String) : IO Unit := do
-  IO.eprintln "drv_delayed: not implemented"
+  lineLoop (← IO.getStdin) (← IO.getStdout) stepLine ()
 
 end Got.Drv.Delayed
